@@ -3,6 +3,7 @@ package main
 import (
 	"encoding/json"
 	"fmt"
+	"strings"
 	"time"
 
 	"github.com/crillab/gophersat/solver"
@@ -152,6 +153,34 @@ func runAssumeCase(o *Oracle, d json.RawMessage, oc *Outcome) {
 		entry := "solver.Assume+Solve"
 		st := s.Assume(lits)
 		drain(false)
+		if pb.Status != solver.Unsat {
+			// the prologue of Assume (facts re-installed, assumptions bound and flagged) against its
+			// Lean mirror GS.Assume.assumePrologue (theorems assumePrologue_spec / _sem / _no_leak /
+			// _trail_run); what follows on the trail is the work of the propagation
+			facts, flagged := s.VerifAssumeState()
+			tr, _, _ := s.VerifTrailState()
+			want := o.Ask(fmt.Sprintf("assumepro %d | %s | %s", n, encInts(facts), encInts(a)))
+			oc.Corr++
+			switch {
+			case want == "refuted":
+				if st != solver.Unsat {
+					oc.Fail("corr", "assume-mirror", entry, "round %d %v with facts %v: the mirror GS.Assume.assumePrologue refutes, Assume answered %v", i, a, facts, st)
+				}
+			case strings.HasPrefix(want, "installed"):
+				parts := strings.SplitN(strings.TrimPrefix(want, "installed"), "|", 2)
+				wt := strings.Join(strings.Fields(parts[0]), " ")
+				wf := ""
+				if len(parts) == 2 {
+					wf = strings.Join(strings.Fields(parts[1]), " ")
+				}
+				k := len(strings.Fields(wt))
+				if k > len(tr) || encInts(tr[:k]) != wt || encInts(flagged) != wf {
+					oc.Fail("corr", "assume-mirror", entry, "round %d %v with facts %v: trail %v flagged %v, the mirror installs trail [%s] flagged [%s]", i, a, facts, tr, flagged, wt, wf)
+				}
+			default:
+				oc.Fail("corr", "assume-mirror", entry, "round %d %v with facts %v: mirror answered %q", i, a, facts, want)
+			}
+		}
 		if len(a) == 0 {
 			events = append(events, "S")
 		} else {
